@@ -11,6 +11,7 @@ from typing import Any
 from .. import isa, mdfacts
 from ..core import REPO, AnalysisError, Ctx
 from ..pyfacts import EnumMember, PyEval, PyProgram, Term, attr_chain, unparse
+from ..rules import key_of
 from ..rsfacts import RustProgram, expr_text, pat_text, walk
 
 LEVEL = "other"
@@ -63,6 +64,7 @@ def run(ctx: Ctx) -> None:
     check_irq_bits(ctx, py, rs)
     check_vectors_and_spaces(ctx, py, rs)
     check_views(ctx, py)
+    check_trace_register_copy(ctx, py)
     ctx.extra["exhaustive"] = True
 
 
@@ -583,3 +585,48 @@ CLAIM = ("Decides, completely for the finite domain, that every duplicated archi
 NOTE = ("Trusted: syn/CPython parsers; the generator script's operand mapping as the intended Python->Rust correspondence. "
         "Constants built by arbitrary run-time code (none today) would be reported as ANALYSIS-ERROR, not passed.")
 TECHNIQUE = "static table agreement: constant-folded syntax trees of both languages + README tables, row-by-row comparison with site floors"
+
+
+def check_trace_register_copy(ctx: Ctx, py: PyProgram) -> None:
+    """The machine emulator's trace-register collector is one more copy of the sub-register layout (A/B in BA, IL/IH in I, FC/FZ in F).
+    It is run by the evaluator with a symbolic register snapshot (bit provenance) and every sub-register it reports must be the
+    architectural slice of its parent - the same law C08 decides for the register files."""
+    from ..bits import BitVec
+    from ..pyfacts import NotConst, _Return
+    EMU = "pce500/emulator.py"
+    fn = py.func(EMU, "PCE500Emulator._collect_trace_registers_from_snapshot")
+    mod = py.module(EMU)
+    nested = [st for st in fn.body if isinstance(st, ast.FunctionDef) and len(st.args.args) == 2 and any(isinstance(c, ast.Call) and isinstance(c.func, ast.Name) and c.func.id == "getattr" for c in ast.walk(st))]
+    ctx.need(len(nested) == 1, "_collect_trace_registers_from_snapshot: the masked-attribute helper was not identified")
+    helper = nested[0]
+    widths = {"pc": 24, "ba": 16, "i": 16, "x": 24, "y": 24, "u": 24, "s": 24, "f": 8}
+
+    def masked(attr: str, mask: int) -> BitVec:
+        return BitVec.sym(str(attr), widths.get(str(attr), 24)) & int(mask)
+    ev = PyEval(py, mod, budget=[200000])
+    ev.env = {helper.name: masked, "snapshot": None}
+    regs = None
+    body = [st for st in fn.body if st is not helper and not isinstance(st, ast.Try)]
+    try:
+        try:
+            ev.exec_block(body)
+        except _Return as r:
+            regs = r.v
+    except NotConst as e:
+        raise AnalysisError(f"_collect_trace_registers_from_snapshot left the evaluable fragment: {e}")
+    ctx.need(isinstance(regs, dict) and len(regs) >= 10, "_collect_trace_registers_from_snapshot did not return a register dict")
+    law = {"A": ("ba", 0, 8), "B": ("ba", 8, 8), "IL": ("i", 0, 8), "IH": ("i", 8, 8), "FC": ("f", 0, 1), "FZ": ("f", 1, 1),
+           "BA": ("ba", 0, 16), "I": ("i", 0, 16), "F": ("f", 0, 8), "X": ("x", 0, 24), "Y": ("y", 0, 24), "U": ("u", 0, 24), "S": ("s", 0, 24)}
+    n = 0
+    for name, (src, lo, width) in law.items():
+        if name not in regs:
+            continue
+        n += 1
+        v = BitVec.lift(regs[name])
+        want = [(src, lo + i, False) for i in range(width)]
+        got = list(v.bits[:width])
+        rest = list(v.bits[width:32])
+        if got != want or any(b != 0 for b in rest):
+            ctx.violation("C17/register-model", key_of(EMU, "PCE500Emulator._collect_trace_registers_from_snapshot", f"trace register {name}"),
+                          f"the trace collector reports {name} as bits {[b if not isinstance(b, tuple) else f'{b[0]}.{b[1]}' for b in got[:4]]}... of the snapshot; architecturally {name} is {src.upper()}[{lo}..{lo + width - 1}] (arch.py, Registers._SUBREG_INFO and the Rust register file agree on that)", f"{EMU}:{fn.lineno}")
+    ctx.instance("C17/trace-register-copy", "sub-registers reported by the trace collector are the architectural slices of the snapshot registers", n, 10)
